@@ -4,5 +4,6 @@ CONSTANTS
   MaxLive = 3
   HeaderRows <- HR2
   Lean = FALSE
+  Ext = FALSE
 INVARIANT ListingOrderOK
 CHECK_DEADLOCK FALSE
